@@ -10,7 +10,8 @@ THEOREMS = ["Cspuz.C05.C05_aux_exact", "Cspuz.C05.C05_prim_exact", "Cspuz.C05.C0
 def correspond(ctx):
     ctx.extra["rule"] = ("random multigraphs n<=6 and grids (with (y,x) roots), k in 1..4, label expressions as IntVars / literals / "
                          "compound, roots lists with None holes, allow_empty_group on/off, both routes; emitted program of the real "
-                         "division_connected / _division_connected vs the Lean model (constraint multiset)")
+                         "division_connected / _division_connected vs the Lean model (constraint multiset)"
+                         " + a handful of deterministic medium / LARGE instances per family (graphs.big_graphs: 40, 70 and 258..319 vertices -- vertex ids beyond CPython's small-int cache, more than 32 / 64 vertices --, boards up to 16x17); about half of the Graph objects are observed part-way through construction (accessors read, every graph constraint posted once on a throw-away Solver) before the remaining edges are added")
     graphcorr.run_cases(ctx, graphcorr.case_divconn, ctx.n(400, 5000), "divconn", bigs=graphcorr.graph_bigs() + graphcorr.grid_bigs())
     graphcorr.run_cases(ctx, graphcorr.case_divconn_prim, ctx.n(200, 2500), "divconn_prim", bigs=graphcorr.graph_bigs("large"))
     if not ctx.quick():
@@ -141,38 +142,6 @@ def _runs(lab):
 def search(ctx, why, budget=None):
     found = {}
     rng = ctx.rng
-    # medium and LARGE instances: root vertices with ids >= 257, classes at both ends of the index range
-    bigs = [(n, es, None) for n, es in graphs.big_graphs()] + [(h * w, graphs.grid_edges(h, w), (h, w)) for h, w in graphs.BIG_GRIDS]
-    for idx, (n, edges, grid) in enumerate(bigs):
-        for k in ((2, 3) if n <= 64 else (2 + idx % 2,)):
-            blocks = block_labelings(n, edges, k)
-            lab0 = blocks[0][1]
-            for roots in (None, [None] * (k - 1) + [n - 1], [None if c == 1 else max(v for v in range(n) if lab0[v] == c) - c for c in range(k)]):
-                if n > 64 and roots is None:
-                    continue            # (large boards without roots mostly end undecided; what is special about LARGE is the roots)
-                allow_empty = (idx + k) % 2 == 0
-                as_list = (idx % 2 == 1)
-                key = "big:grid" if grid else "big"
-                if key in found:
-                    continue
-                try:
-                    bad = _check_labelings(n, edges, k, roots, allow_empty, as_list, blocks, grid)
-                except Exception as e:
-                    bad = ("exception", None, core.err_name(e), str(e)[:200])
-                ctx.count("search:" + key)
-                if UNDECIDED[0]:
-                    ctx.count("search:big:undecided-within-%dms" % BIG_TIMEOUT_MS, UNDECIDED[0])
-                    UNDECIDED[0] = 0
-                if bad:
-                    shown = None if roots is None else (roots if not grid else [None if r is None else (r // grid[1], r % grid[1]) for r in roots])
-                    found[key] = Finding(
-                        "divconn:large-" + ("grid" if grid else "graph"),
-                        (f"division_connected on a {grid[0]}x{grid[1]} IntArray2D" if grid else
-                         f"division_connected on a graph with {n} vertices and {len(edges)} edges (edges {edges[:4]} ... {edges[-6:]}, labels as a {'list' if as_list else 'IntArray1D'})")
-                        + f", k={k}, roots={shown}, allow_empty_group={allow_empty}, labels ({bad[0]}) = {_runs(bad[1]) if bad[1] else None}: "
-                        f"satisfiable={bad[2]} expected {bad[3]}",
-                        {"big": True, "n": n, "edges": edges, "bgrid": list(grid) if grid else None, "k": k, "roots": roots,
-                         "allow_empty": allow_empty, "as_list": as_list, "labels": bad[1], "labels_name": bad[0]})
     for (h, w, k, roots) in ((1, 3, 2, [None, (0, 2)]), (2, 2, 3, [None, (0, 0), (1, 1)]), (2, 3, 2, [(1, 2), None]),
                              (2, 2, 2, [None, None]), (3, 1, 3, [(2, 0), None, (0, 0)]), (2, 3, 3, [None, (0, 0), (1, 2)])):
         for allow_empty in (False, True):
@@ -215,6 +184,38 @@ def search(ctx, why, budget=None):
                                     f"labels={bad[0]}: satisfiable={bad[1]} expected {bad[2]}" + graphs.history_note(n, edges),
                                     {"n": n, "edges": edges, "k": k, "roots": roots, "allow_empty": allow_empty, "prim": prim,
                                      "as_list": as_list, "labels": bad[0]})
+    # medium and LARGE instances: root vertices with ids >= 257, classes at both ends of the index range
+    bigs = [(n, es, None) for n, es in graphs.big_graphs()] + [(h * w, graphs.grid_edges(h, w), (h, w)) for h, w in graphs.BIG_GRIDS]
+    for idx, (n, edges, grid) in enumerate(bigs):
+        for k in ((2, 3) if n <= 64 else (2 + idx % 2,)):
+            blocks = block_labelings(n, edges, k)
+            lab0 = blocks[0][1]
+            for roots in (None, [None] * (k - 1) + [n - 1], [None if c == 1 else max(v for v in range(n) if lab0[v] == c) - c for c in range(k)]):
+                if n > 64 and roots is None:
+                    continue            # (large boards without roots mostly end undecided; what is special about LARGE is the roots)
+                allow_empty = (idx + k) % 2 == 0
+                as_list = (idx % 2 == 1)
+                key = "big:grid" if grid else "big"
+                if key in found:
+                    continue
+                try:
+                    bad = _check_labelings(n, edges, k, roots, allow_empty, as_list, blocks, grid)
+                except Exception as e:
+                    bad = ("exception", None, core.err_name(e), str(e)[:200])
+                ctx.count("search:" + key)
+                if UNDECIDED[0]:
+                    ctx.count("search:big:undecided-within-%dms" % BIG_TIMEOUT_MS, UNDECIDED[0])
+                    UNDECIDED[0] = 0
+                if bad:
+                    shown = None if roots is None else (roots if not grid else [None if r is None else (r // grid[1], r % grid[1]) for r in roots])
+                    found[key] = Finding(
+                        "divconn:large-" + ("grid" if grid else "graph"),
+                        (f"division_connected on a {grid[0]}x{grid[1]} IntArray2D" if grid else
+                         f"division_connected on a graph with {n} vertices and {len(edges)} edges (edges {edges[:4]} ... {edges[-6:]}, labels as a {'list' if as_list else 'IntArray1D'})")
+                        + f", k={k}, roots={shown}, allow_empty_group={allow_empty}, labels ({bad[0]}) = {_runs(bad[1]) if bad[1] else None}: "
+                        f"satisfiable={bad[2]} expected {bad[3]}" + ("" if grid else graphs.history_note(n, edges)),
+                        {"big": True, "n": n, "edges": edges, "bgrid": list(grid) if grid else None, "k": k, "roots": roots,
+                         "allow_empty": allow_empty, "as_list": as_list, "labels": bad[1], "labels_name": bad[0]})
     return list(found.values())
 
 
